@@ -24,7 +24,7 @@ instance (t : Tx) : Decidable (C26_full_on t) := by unfold C26_full_on; infer_in
 theorem allegraPlus_ok_iff (t : Tx) (he : t.shelley = false) (hz : t.ttl ≠ some 0) :
     ok t = true ↔
       (∀ s, t.start = some s → s ≤ t.slot) ∧ (∀ e, t.ttl = some e → t.slot < e) := by
-  obtain ⟨sh, slot, start, ttl⟩ := t
+  obtain ⟨sh, slot, start, ttl, vld⟩ := t
   simp only at he hz
   subst he
   cases start <;> cases ttl <;>
@@ -35,7 +35,7 @@ theorem allegraPlus_ok_iff (t : Tx) (he : t.shelley = false) (hz : t.ttl ≠ som
 theorem shelley_ok_iff (t : Tx) (he : t.shelley = true) (e : Nat) (ht : t.ttl = some e)
     (hz : e ≠ 0 ∨ t.slot = 0) :
     ok t = true ↔ t.slot ≤ e := by
-  obtain ⟨sh, slot, start, ttl⟩ := t
+  obtain ⟨sh, slot, start, ttl, vld⟩ := t
   simp only at he ht hz
   subst he; subst ht
   simp [ok, shelleyOk, ttlV]
@@ -44,7 +44,7 @@ theorem shelley_ok_iff (t : Tx) (he : t.shelley = true) (e : Nat) (ht : t.ttl = 
 /-- The part of the full statement that holds: outside the zero-TTL class every
     accepted transaction is inside its interval (all eras). -/
 theorem C26_partial (t : Tx) (hz : zeroTtl t = false) : C26_full_on t := by
-  obtain ⟨sh, slot, start, ttl⟩ := t
+  obtain ⟨sh, slot, start, ttl, vld⟩ := t
   unfold C26_full_on
   cases sh <;> cases start <;> cases ttl <;>
     simp [zeroTtl, ok, shelleyOk, allegraOk, inInterval, startV, ttlV] at hz ⊢ <;> omega
@@ -52,7 +52,7 @@ theorem C26_partial (t : Tx) (hz : zeroTtl t = false) : C26_full_on t := by
 /-- Conversely the rule rejects nothing the ledger rule admits (no over-rejection),
     in every era and for every input including the zero-TTL class. -/
 theorem no_over_rejection (t : Tx) : inInterval t = true → ok t = true := by
-  obtain ⟨sh, slot, start, ttl⟩ := t
+  obtain ⟨sh, slot, start, ttl, vld⟩ := t
   cases sh <;> cases start <;> cases ttl <;>
     simp [ok, shelleyOk, allegraOk, inInterval, startV, ttlV] <;> omega
 
@@ -87,6 +87,13 @@ theorem absent_is_zero (sh : Bool) (slot : Nat) :
     ok { shelley := sh, slot := slot, start := none, ttl := none } =
       ok { shelley := sh, slot := slot, start := some 0, ttl := some 0 } := by
   cases sh <;> simp [ok, shelleyOk, allegraOk, startV, ttlV]
+
+/-- The validity interval is a phase-1 check: the `IsValid` flag does not enter the rule
+    (nor the interval the ledger prescribes), so a phase-2-invalid transaction is bound by
+    its interval exactly like a valid one, in every era that carries the flag. -/
+theorem validity_flag_irrelevant (t : Tx) (v : Bool) :
+    ok { t with valid := v } = ok t ∧ inInterval { t with valid := v } = inInterval t :=
+  ⟨rfl, rfl⟩
 
 /-- Regenerated tie (R): the rule is an entry of every era's rule list as it stands
     in the repository now, and Mary..Conway forward to Allegra's function. -/
